@@ -2,10 +2,10 @@
 # tools/run_all.sh quick|thorough [ids...] : run the checks one after another, one summary line each
 TIER=${1:-quick}; shift
 IDS=${@:-C01 C02 C03 C04 C05 C06 C07 C08 C09 C10 C11 C12 C13 C14 C15 C16 C17 C18 C19 C20}
-cd /verif
+cd "$(dirname "$0")/.."
 for p in $IDS; do
   s=$(date +%s)
-  ./check $p $TIER > /tmp/run_all.$p.out 2> /tmp/run_all.$p.err; rc=$?
+  ./check $p $TIER > ${RUNALL_OUT:-/tmp}/run_all.$p.out 2> ${RUNALL_OUT:-/tmp}/run_all.$p.err; rc=$?
   e=$(( $(date +%s) - s ))
-  echo "$p $TIER exit=$rc ${e}s $(grep -c '^VIOLATION' /tmp/run_all.$p.out) violations $(grep -c '^KNOWN-FINDING' /tmp/run_all.$p.out) known; $(grep -i 'missed' /tmp/run_all.$p.err | head -1 | cut -c1-200)"
+  echo "$p $TIER exit=$rc ${e}s $(grep -c '^VIOLATION' ${RUNALL_OUT:-/tmp}/run_all.$p.out) violations $(grep -c '^KNOWN-FINDING' ${RUNALL_OUT:-/tmp}/run_all.$p.out) known; $(grep -i 'missed' ${RUNALL_OUT:-/tmp}/run_all.$p.err | head -1 | cut -c1-200)"
 done
